@@ -194,6 +194,10 @@ func checkC20(c *Ctx) {
 		}
 	}
 	c20Pure(c, onceState)
+	// Config.ticketKeys() hands the slice out under the read lock and callers read it after unlocking; Clone shares it
+	sharedSliceImmutable(c, "L-PUBLISHED", "gmtls", "sessionTicketKeys", 4,
+		"the published ticket-key slice is replaced as a whole, never written in place",
+		"handshakes that obtained the slice through ticketKeys() read it without the lock, and clones of the Config share it: a rotation races with them and changes the keys of the clones")
 }
 
 var c20GlobalExempt = map[string]string{
